@@ -58,7 +58,11 @@ func (a *vfHamActor) OnReceive(ctx vivid.ActorContext) {
 			// the actor itself becomes an asker: its outstanding futures are swept when it dies or restarts, while replies
 			// (and timeouts) complete and deregister them from other goroutines
 			if m.To != nil {
-				f := ctx.Ask(m.To, &vfHamMsg{Op: "reply"}, time.Duration(1+a.count.Load()%40)*time.Millisecond)
+				op := "reply"
+				if a.count.Load()%2 == 0 {
+					op = "noop" // never answered: the future stays registered until its timeout fires (on a timer goroutine)
+				}
+				f := ctx.Ask(m.To, &vfHamMsg{Op: op}, time.Duration(1+a.count.Load()%40)*time.Millisecond)
 				if a.count.Load()%3 == 0 {
 					_ = f.PipeTo(vivid.ActorRefs{ctx.Ref()})
 				}
